@@ -1557,6 +1557,9 @@ func indexSafety(p *core.Prog, r *core.Run, rule string, fns []*ssa.Function, fl
 	indexSafetyWith(p, r, rule, fns, floor, nil)
 }
 
+// sizesOnly: functions of which indexSafety examines the allocation sizes only.
+var sizesOnly = map[*ssa.Function]bool{}
+
 // indexSafetyWith additionally takes a judge for unchecked type assertions.
 func indexSafetyWith(p *core.Prog, r *core.Run, rule string, fns []*ssa.Function, floor int, assertOK func(*ssa.TypeAssert) (bool, string)) {
 	s := newSafety(p, fns)
@@ -1571,6 +1574,11 @@ func indexSafetyWith(p *core.Prog, r *core.Run, rule string, fns []*ssa.Function
 					g    func(facts *[]ineq) lin
 				}
 				desc := ""
+				if _, isMake := in.(*ssa.MakeSlice); !isMake && sizesOnly[core.Root(fn)] {
+					// (a supporting package taken over from the standard library: only
+					// the sizes it allocates with are examined)
+					continue
+				}
 				switch x := in.(type) {
 				case *ssa.IndexAddr:
 					if _, isArr := deref2(x.X.Type()).Underlying().(*types.Array); isArr {
@@ -1655,6 +1663,27 @@ func indexSafetyWith(p *core.Prog, r *core.Run, rule string, fns []*ssa.Function
 							name string
 							g    func(facts *[]ineq) lin
 						}{"high <= len", func(f *[]ineq) lin { return s.lenLin(x.X, f, 0).add(hi(f), -1) }})
+					}
+				case *ssa.MakeSlice:
+					// make([]T, n, c) panics for n < 0 or c < n: sizes that are not
+					// constants must be shown to be in order
+					_, lenK := x.Len.(*ssa.Const)
+					_, capK := x.Cap.(*ssa.Const)
+					if lenK && capK {
+						continue
+					}
+					desc = "make " + short(p.X(x))
+					if !lenK {
+						goals = append(goals, struct {
+							name string
+							g    func(facts *[]ineq) lin
+						}{"len >= 0", func(f *[]ineq) lin { return s.toLin(x.Len, f, 0) }})
+					}
+					if x.Cap != x.Len {
+						goals = append(goals, struct {
+							name string
+							g    func(facts *[]ineq) lin
+						}{"cap >= len", func(f *[]ineq) lin { return s.toLin(x.Cap, f, 0).add(s.toLin(x.Len, f, 0), -1) }})
 					}
 				case *ssa.Panic:
 					if !x.Pos().IsValid() {
